@@ -32,6 +32,24 @@ def convert_slice(_slice: Slice) -> Call:
     )
 
 
+def convert_index(index: expr) -> expr:
+    """
+    Convert the index of a subscript to an expression that is valid anywhere:
+    `a[1:2]` -> `slice(1, 2, None)`, `a[1:2, 3]` -> `(slice(1, 2, None), 3)`
+    """
+    if isinstance(index, Slice):
+        return convert_slice(index)
+    if isinstance(index, Tuple):
+        return Tuple(
+            elts=[
+                convert_slice(elt) if isinstance(elt, Slice) else elt
+                for elt in index.elts
+            ],
+            ctx=Load(),
+        )
+    return index
+
+
 def list_wrapper(nodes: list[expr]) -> expr:
     return List(elts=nodes, ctx=Load())
 
